@@ -1767,6 +1767,8 @@ class Interp:
                 return (isinstance(v, Arr) and v.dt == 'f') or (isinstance(v, float) and v != int(v) if isinstance(v, float) and v == v and abs(v) != float('inf') else False)
             if isinstance(op, ast.Div) or real(a) or real(b):
                 r.dt = 'f'
+            elif isinstance(op, (ast.Add, ast.Sub, ast.Mult, ast.FloorDiv, ast.Mod)) and all((isinstance(v, Arr) and v.dt == 'i') or (isinstance(v, int) and not isinstance(v, bool)) for v in (a, b)):
+                r.dt = 'i'          # whole numbers combined with whole numbers
         return r
 
     def _binop(self, op, a, b, node):
@@ -2084,7 +2086,7 @@ class Interp:
             p = Poly()
             for k_, v in enumerate(vals):
                 p = p + alg.mk_ind('==0', run - num(k_)) * v.poly
-            return Arr((lab,), p, unit=vals[0].unit if vals else num(1))
+            return Arr((lab,), p, unit=vals[0].unit if vals else num(1), dt='i' if lst and all(isinstance(x, int) and not isinstance(x, bool) for x in lst) else None)
         return Unk('list literal as array')
 
     def _as_arr(self, v):
@@ -3022,9 +3024,18 @@ class Interp:
                 mk_ = _merge_mask(a_, b_)
                 if isinstance(mk_, Unk):
                     return mk_
+                dt_ = 'i' if all(v_.dt == 'i' or (v_.ndim == 0 and v_.poly.is_const() and v_.poly.const_value().denominator == 1) for v_ in (a_, b_)) and 'i' in (a_.dt, b_.dt) else None
+                for x_, y_ in ((a_, b_), (b_, a_)):
+                    el_ = self._concrete_elems(x_)
+                    if el_ is not None and y_.ndim == 0 and mk_ is None:
+                        # an array of a few known positions: position by position
+                        big_ = last in ('maximum', 'fmax')
+                        r_ = self._from_elems(x_, [e_ + (alg.lt(e_, y_.poly) if big_ else alg.lt(y_.poly, e_)) * (y_.poly - e_) for e_ in el_])
+                        r_.dt = dt_
+                        return r_
                 if last in ('maximum', 'fmax'):
-                    return Arr(d_, a_.poly + alg.lt(a_.poly, b_.poly) * (b_.poly - a_.poly), mk_, a_.unit if a_.unit is not None else b_.unit)
-                return Arr(d_, a_.poly + alg.lt(b_.poly, a_.poly) * (b_.poly - a_.poly), mk_, a_.unit if a_.unit is not None else b_.unit)
+                    return Arr(d_, a_.poly + alg.lt(a_.poly, b_.poly) * (b_.poly - a_.poly), mk_, a_.unit if a_.unit is not None else b_.unit, dt=dt_)
+                return Arr(d_, a_.poly + alg.lt(b_.poly, a_.poly) * (b_.poly - a_.poly), mk_, a_.unit if a_.unit is not None else b_.unit, dt=dt_)
             if last in ('full', 'full_like') and len(args) >= 2:
                 base = self.libcall('numpy.zeros' if last == 'full' else 'numpy.zeros_like', [args[0]], {k_: v_ for k_, v_ in kw.items() if k_ == 'dtype'}, e, mod)
                 fv = self._as_arr(args[1])
@@ -3033,6 +3044,11 @@ class Interp:
                 return Unk('np.%s' % last, e)
             if last == 'diff' and len(args) == 1 and not kw:
                 x_ = self._as_arr(args[0])
+                el_ = self._concrete_elems(x_)
+                if (el_ is not None and len(el_) >= 1) or (isinstance(x_, Arr) and x_.ndim == 1 and x_.mask is None and x_.dims[0] in self.axis_len and self.axis_len[x_.dims[0]] >= 1):
+                    # an array of a few known positions: the differences of neighbours, position by position (the same as x[1:] - x[:-1])
+                    return self.binop(ast.Sub(), self.subscript(ast.parse('__d__[1:]', mode='eval').body, {'__d__': x_, '__module__': mod}, mod),
+                                      self.subscript(ast.parse('__d__[:-1]', mode='eval').body, {'__d__': x_, '__module__': mod}, mod), e)
                 if isinstance(x_, Arr) and x_.ndim == 1 and x_.dims[0] and x_.mask is None:
                     lab_ = x_.dims[0]            # x[1:] - x[:-1]
                     return Arr((lab_ + '~',), alg.relabel(x_.poly, lab_, lab_ + '~', '@+1') - alg.relabel(x_.poly, lab_, lab_ + '~', '@0'), unit=x_.unit)
@@ -3119,6 +3135,29 @@ class Interp:
                     src_ = src_.with_(mask=wm_.poly)          # the elements of src at the positions where the mask holds
                 self.store_sub(tgt_, src_, self.frames[-1], mod)
                 return None
+            if last == 'expand_dims' and len(args) + len(kw) == 2:
+                x, ax_ = self._as_arr(args[0]), kw.get('axis', args[1] if len(args) > 1 else None)
+                ax_ = (ax_,) if isinstance(ax_, int) and not isinstance(ax_, bool) else ax_
+                if isinstance(x, Arr) and x.mask is None and isinstance(ax_, (tuple, list)) and all(isinstance(a_, int) and not isinstance(a_, bool) for a_ in ax_):
+                    nd_ = x.ndim + len(ax_)
+                    pos_ = sorted(a_ + nd_ if a_ < 0 else a_ for a_ in ax_)
+                    if len(set(pos_)) == len(pos_) and all(0 <= a_ < nd_ for a_ in pos_):
+                        it_, dims_ = iter(x.dims), []
+                        for k_ in range(nd_):
+                            dims_.append(None if k_ in pos_ else next(it_))
+                        return x.with_(dims=tuple(dims_))          # axes of one position inserted where asked for
+                return Unk('np.expand_dims', e)
+            if last == 'take_along_axis' and len(args) + len(kw) == 3:
+                v_, ix_, ax_ = self._as_arr(args[0]), self._as_arr(args[1]), kw.get('axis', args[2] if len(args) > 2 else None)
+                if isinstance(v_, Arr) and isinstance(ix_, Arr) and v_.mask is None and ix_.mask is None and isinstance(ax_, int) and not isinstance(ax_, bool) and v_.ndim == ix_.ndim:
+                    ax_ = ax_ + v_.ndim if ax_ < 0 else ax_
+                    lab_ = v_.dims[ax_] if 0 <= ax_ < v_.ndim else None
+                    others_ok = all(d_ is None or d_ == v_.dims[k_] for k_, d_ in enumerate(ix_.dims) if k_ != ax_)
+                    if lab_ is not None and ix_.dims[ax_] is None and others_ok and lab_ not in alg.poly_labels(ix_.poly):
+                        # one position taken along the axis for every position of the others: values[..., index[...], ...]
+                        dims_ = tuple(None if k_ == ax_ else d_ for k_, d_ in enumerate(v_.dims))
+                        return Arr(dims_, alg.mk_fn('at', B(lab_, v_.poly), P(ix_.poly)), None, v_.unit, dt=v_.dt)
+                return Unk('np.take_along_axis', e)
             if last == 'clip':
                 x, lo, hi = [self._as_arr(v) for v in (args[0], kw.get('a_min', args[1] if len(args) > 1 else None), kw.get('a_max', args[2] if len(args) > 2 else None))]
                 if any(isinstance(v, Unk) for v in (x, lo, hi)):
@@ -3130,6 +3169,8 @@ class Interp:
                 d = bdims(bdims(x.dims, lo.dims), hi.dims)
                 p = x.poly + alg.lt(x.poly, lo.poly) * (lo.poly - x.poly) + alg.lt(hi.poly, x.poly) * (hi.poly - x.poly)
                 return Arr(d, p, x.mask, x.unit)
+            if last == 'asanyarray':
+                last = 'asarray'
             if last in ('array', 'asarray', 'float64', 'float32', 'int32', 'int64', 'atleast_1d', 'ascontiguousarray'):
                 x = args[0]
                 if isinstance(x, (list, tuple)):
@@ -3155,7 +3196,7 @@ class Interp:
                     return Arr((x.label,) + tuple(x.elem.dims), x.elem.poly, unit=x.elem.unit)
                 return Unk('np.%s(%r)' % (last, x), e)
             if last == 'interp':
-                a = [self._as_arr(v) for v in args[:3]]
+                a = [self._list_to_arr(v) if isinstance(v, (list, tuple)) else self._as_arr(v) for v in args[:3]]          # (a list of query points is an array of them)
                 if any(isinstance(v, Unk) for v in a) or len(a) < 3:
                     return Unk('np.interp arguments', e)
                 extra = []
